@@ -31,20 +31,21 @@ import (
 
 // Case is the raw, replayable description of one check.
 type Case struct {
-	Op      string // validate | types | rev
-	Typ     string `json:",omitempty"` // http | dns | tls | da | unknown
-	Status  string `json:",omitempty"` // stored status before the call
-	PrevErr string `json:",omitempty"` // error left by an earlier attempt ("" = none)
-	Value   string `json:",omitempty"`
-	Token   string `json:",omitempty"`
-	Acct    int    // index into accounts of the key that signed the request; -1 = key without thumbprint
-	Strict  bool   `json:",omitempty"`
-	PortH   int    `json:",omitempty"`
-	PortT   int    `json:",omitempty"`
-	DBFail  bool   `json:",omitempty"`
-	AzSt    string `json:",omitempty"` // stored status of the owning authorization before the call ("" = pending)
-	AzExp   bool   `json:",omitempty"` // the owning authorization has expired
-	Mut     string `json:",omitempty"` // name of the mutation that produced the response (evidence only)
+	Op        string // validate | types | rev
+	Typ       string `json:",omitempty"` // http | dns | tls | da | unknown
+	Status    string `json:",omitempty"` // stored status before the call
+	PrevErr   string `json:",omitempty"` // error left by an earlier attempt ("" = none)
+	Value     string `json:",omitempty"`
+	Token     string `json:",omitempty"`
+	Acct      int    // index into accounts of the key that signed the request; -1 = key without thumbprint
+	Strict    bool   `json:",omitempty"`
+	PortH     int    `json:",omitempty"`
+	PortT     int    `json:",omitempty"`
+	DBFail    bool   `json:",omitempty"`
+	AzSt      string `json:",omitempty"` // stored status of the owning authorization before the call ("" = pending)
+	AzExp     bool   `json:",omitempty"` // the owning authorization has expired
+	AzForeign bool   `json:",omitempty"` // the authorization loaded (id from the request URL) is another identifier's: its own challenges are all pending
+	Mut       string `json:",omitempty"` // name of the mutation that produced the response (evidence only)
 
 	HTTP *HTTPW `json:",omitempty"`
 	DNS  *DNSW  `json:",omitempty"`
@@ -342,6 +343,10 @@ func (k *Case) runValidate() (out string) {
 	azRec := statusName(azStatus) + ":" + c.B(time.Now().After(azExpires))
 	az := &acme.Authorization{ID: "azID", AccountID: "accID", Status: azStatus, ExpiresAt: azExpires,
 		Challenges: []*acme.Challenge{{ID: "chID", Type: ch.Type, Status: db.status}}}
+	if k.AzForeign { // a dns authorization with its three network challenges, none of them answered
+		az.Challenges = []*acme.Challenge{{ID: "d1", Type: acme.DNS01, Status: acme.StatusPending}, {ID: "d2", Type: acme.HTTP01, Status: acme.StatusPending},
+			{ID: "d3", Type: acme.TLSALPN01, Status: acme.StatusPending}}
+	}
 	azOut := "err"
 	db.MockUpdateAuthorization = func(context.Context, *acme.Authorization) error { return nil } // the fault (if any) was for the validator
 	if az.UpdateStatus(ctx, db) == nil {
@@ -494,8 +499,8 @@ func (k *Case) render() (string, bool) {
 	if azst == "" {
 		azst = "pending"
 	}
-	head := fmt.Sprintf("op=validate typ=%s st=%s perr=%s azst=%s azexp=%s val=%s tok=%s thumb=%s ip=%s strict=%s ph=%d pt=%d db=%s cmp=%s h=%s",
-		k.Typ, statusName(statusOf(k.Status)), perr, azst, c.B(k.AzExp), c.X(k.Value), c.X(k.Token), c.Opt(th, ok), ipField(k.Value), c.B(k.Strict), k.PortH, k.PortT,
+	head := fmt.Sprintf("op=validate typ=%s st=%s perr=%s azst=%s azexp=%s azforeign=%s val=%s tok=%s thumb=%s ip=%s strict=%s ph=%d pt=%d db=%s cmp=%s h=%s",
+		k.Typ, statusName(statusOf(k.Status)), perr, azst, c.B(k.AzExp), c.B(k.AzForeign), c.X(k.Value), c.X(k.Token), c.Opt(th, ok), ipField(k.Value), c.B(k.Strict), k.PortH, k.PortT,
 		c.B(!k.DBFail), c.B(k.cmpTarget()), hashTable(k))
 	var w string
 	switch {
